@@ -325,3 +325,317 @@ Proof.
          repeat match goal with H : _ \/ _ |- _ => destruct H end; try contradiction;
          match goal with H : (_, _) = (_, _) |- _ => injection H as <- <- end; reflexivity).
 Qed.
+
+(* ======================================================================================================================
+   GAP CLOSING against the property text (clause-by-clause table: header of Proofs/C07GapA.v; new specification-side
+   definitions: Model/C07GapDef.v - the last-writer tracker [track], [touches], the conditions [framed_op] / [pickle_ok_at]).
+   ====================================================================================================================== *)
+From BP Require Import Model.C01Def Model.C01Reach Model.C01Parse Model.C14Pickle Model.C07GapDef.
+From BP Require Import Proofs.C07GapA Proofs.C07GapB.
+
+(* ---- "at most one member of each oneof group is set" / "reading any other member raises": the converses.
+        For EVERY object (no invariant, no well-formedness): a member is readable exactly when which_one_of names it, the
+        only exception a member read can raise is AttributeError, and it raises exactly when which_one_of names something else
+        or nothing ---- *)
+Theorem C07_read_iff_selected : forall sc o i f g,
+  nth_error (cfs sc o) i = Some f -> fgroup f = Some g ->
+  ((exists v, read sc o i = Ok v) <-> which_one_of o g = Some i) /\
+  (read sc o i = Err EAttribute <-> which_one_of o g <> Some i) /\
+  (forall e, read sc o i = Err e -> e = EAttribute).
+Proof. exact read_iff_selected. Qed.
+Print Assumptions C07_read_iff_selected.
+
+Theorem C07_at_most_one_readable : forall sc o g i j fi fj vi vj,
+  nth_error (cfs sc o) i = Some fi -> fgroup fi = Some g ->
+  nth_error (cfs sc o) j = Some fj -> fgroup fj = Some g ->
+  read sc o i = Ok vi -> read sc o j = Ok vj -> i = j.
+Proof. exact at_most_one_readable. Qed.
+Print Assumptions C07_at_most_one_readable.
+
+(* after every history: what which_one_of names is a member of THAT group of the class the history started with (the class
+   never changes), the group index is in range, the member is readable; a group index out of range names nothing *)
+Theorem C07_reachable_selected_is_member : forall sc c ops o,
+  run7 sc (new sc c) ops = Ok o ->
+  ocls o = c /\
+  (forall g i, which_one_of o g = Some i ->
+     (g < cngroups (get_class sc c))%nat /\ member sc c g i /\ exists v, read sc o i = Ok v) /\
+  (forall g, (cngroups (get_class sc c) <= g)%nat -> which_one_of o g = None).
+Proof. exact reachable_selected_is_member. Qed.
+Print Assumptions C07_reachable_selected_is_member.
+
+(* ---- "which_one_of names the member set last (or none)" for a WHOLE history: _group_current is the last-writer tracker
+        [track] of Model/C07GapDef.v applied to the history.  [trk_ok] is judged along the run: the bytes of every parse are
+        framed for the schema-less reader, every pickle starts from a state meeting C01's value and size conditions.
+        No bound on the history, the values assigned (None, PLACEHOLDER, ill-typed included) or the bytes parsed. ---- *)
+Theorem C07_track_sound : forall sc c ops o,
+  c01_schema_ok sc = true -> hist_ok trk_ok sc (new sc c) ops = true -> run7 sc (new sc c) ops = Ok o ->
+  ocur o = track sc c ops /\ forall g, which_one_of o g = nth g (track sc c ops) None.
+Proof. exact track_sound. Qed.
+Print Assumptions C07_track_sound.
+
+(* ... the pickle condition is discharged for every history that meets C01's operation-level conditions (composition with
+   C01_reachable_value_ok_parse's step lemma): conditions on the operations only, evaluated as booleans *)
+Theorem C07_track_reachable : forall sc c ops o,
+  c01_schema_ok sc = true -> hist_ok op_value_ok_p sc (new sc c) ops = true -> forallb framed_op ops = true ->
+  run7 sc (new sc c) ops = Ok o ->
+  ocur o = track sc c ops /\ forall g, which_one_of o g = nth g (track sc c ops) None.
+Proof. exact track_reachable. Qed.
+Print Assumptions C07_track_reachable.
+
+(* ... pickle on its own: the round trip through bytes carries _group_current (composition with C14's pickle theorem) *)
+Theorem C07_pickle_keeps_selection : forall sc o o',
+  c01_schema_ok sc = true -> c01_value_ok sc o = true -> enc_small sc o = true ->
+  pickle_rt sc o = Ok o' ->
+  ocur o' = ocur o /\ (forall g, which_one_of o' g = which_one_of o g) /\ enc_obj sc o' = enc_obj sc o.
+Proof. exact pickle_keeps_selection. Qed.
+Print Assumptions C07_pickle_keeps_selection.
+
+(* ... and the condition is needed: m.a = None selects a, emits nothing, and the unpickled message selects nothing - the
+   invariant survives (C07_inv_step) but "names the member set last" does not *)
+Theorem C07_pickle_selection_refuted :
+  exists sc c ops,
+    wf_schema sc = true /\ forallb framed_op ops = true /\ hist_ok trk_ok sc (new sc c) ops = false /\
+    match run7 sc (new sc c) ops with
+    | Ok o => which_one_of o 0 = None /\ nth 0 (track sc c ops) None = Some 0%nat
+    | Err _ => False
+    end.
+Proof.
+  exists ex_sc, 11%nat, [OBase (OSet [] 0 PNone); OBase OPickle]. vm_compute. repeat split.
+Qed.
+Print Assumptions C07_pickle_selection_refuted.
+
+(* ... reading "set last" off the tracker: the last top-level assignment to a member of g - ANY value, the default included -
+   with nothing touching g afterwards (copies, pickles, observers, reads, nested assignments, assignments / records of other
+   groups: [touches] is false for them) is what the tracker names; a group nothing touches is named nothing *)
+Theorem C07_track_last_assignment : forall sc c ops1 i v ops2 f g,
+  nth_error (cfields (get_class sc c)) i = Some f -> fgroup f = Some g -> (g < cngroups (get_class sc c))%nat ->
+  forallb (fun p => negb (touches sc c g p)) ops2 = true ->
+  nth g (track sc c (ops1 ++ OBase (OSet [] i v) :: ops2)) None = Some i.
+Proof. exact track_last_assignment. Qed.
+Print Assumptions C07_track_last_assignment.
+
+Theorem C07_track_never_touched : forall sc c ops g,
+  forallb (fun p => negb (touches sc c g p)) ops = true -> nth g (track sc c ops) None = None.
+Proof. exact track_never_touched. Qed.
+Print Assumptions C07_track_never_touched.
+
+(* ... m.from_dict(d) naming several members of one group: the last entry in dict order wins *)
+Theorem C07_from_dict_inst_last : forall sc o kw1 i v kw2 f g,
+  Inv sc o -> nth_error (cfs sc o) i = Some f -> fgroup f = Some g -> (g < cngroups (get_class sc (ocls o)))%nat ->
+  touches sc (ocls o) g (OFromDictInst kw2) = false ->
+  which_one_of (C07Ops.from_dict_inst sc o (kw1 ++ (i, v) :: kw2)) g = Some i.
+Proof. exact from_dict_inst_last. Qed.
+Print Assumptions C07_from_dict_inst_last.
+
+(* ---- "the encoding and the JSON output contain that member and no other member of the group", as an equivalence:
+        a member's field number is among the records of bytes(m) / its key is in to_dict(m) IFF which_one_of names it ---- *)
+Theorem C07_observable_iff : forall sc o bs,
+  wf_schema sc = true -> Inv sc o -> selected_values_ok sc o -> enc_obj sc o = Ok bs ->
+  exists body rs,
+    bs = body ++ ounk o /\ records body = Some rs /\
+    forall g j f', (g < cngroups (get_class sc (ocls o)))%nat ->
+      nth_error (cfs sc o) j = Some f' -> fgroup f' = Some g ->
+      (In (fnum f') (numbers rs) <-> which_one_of o g = Some j).
+Proof. exact observable_iff. Qed.
+Print Assumptions C07_observable_iff.
+
+Theorem C07_observable_iff_reachable : forall sc c ops o bs,
+  wf_schema sc = true -> Forall (op_ok sc c) ops -> run7 sc (new sc c) ops = Ok o -> enc_obj sc o = Ok bs ->
+  exists body rs,
+    bs = body ++ ounk o /\ records body = Some rs /\
+    forall g j f', (g < cngroups (get_class sc (ocls o)))%nat ->
+      nth_error (cfs sc o) j = Some f' -> fgroup f' = Some g ->
+      (In (fnum f') (numbers rs) <-> which_one_of o g = Some j).
+Proof. exact observable_iff_reachable. Qed.
+Print Assumptions C07_observable_iff_reachable.
+
+Theorem C07_json_observable_iff : forall cs incl sc o,
+  wf_schema sc = true -> Inv sc o -> selected_values_ok sc o -> keys_distinct cs sc (ocls o) ->
+  forall g j f', (g < cngroups (get_class sc (ocls o)))%nat ->
+    nth_error (cfs sc o) j = Some f' -> fgroup f' = Some g ->
+    (In (key_of_field cs f') (jkeys (to_dict cs incl sc o)) <-> which_one_of o g = Some j).
+Proof. exact json_observable_iff. Qed.
+Print Assumptions C07_json_observable_iff.
+
+Theorem C07_json_observable_iff_reachable : forall cs incl sc c ops o,
+  wf_schema sc = true -> Forall (op_ok sc c) ops -> run7 sc (new sc c) ops = Ok o -> keys_distinct cs sc (ocls o) ->
+  forall g j f', (g < cngroups (get_class sc (ocls o)))%nat ->
+    nth_error (cfs sc o) j = Some f' -> fgroup f' = Some g ->
+    (In (key_of_field cs f') (jkeys (to_dict cs incl sc o)) <-> which_one_of o g = Some j).
+Proof. exact json_observable_iff_reachable. Qed.
+Print Assumptions C07_json_observable_iff_reachable.
+
+(* ---- "Assigning a member always makes it the selected one, even when assigning its default value", composed with the
+        encoding and with to_dict: after m.f = v the record / key of f IS in the output and no sibling's is.  For the default
+        value there is no condition on the value at all; for other values the one of C07_observable (not None / list / dict) ---- *)
+Theorem C07_assign_on_wire : forall sc o i v f g bs,
+  wf_schema sc = true -> Inv sc o -> selected_values_ok sc o ->
+  nth_error (cfs sc o) i = Some f -> fgroup f = Some g -> vok v = true ->
+  enc_obj sc (setattr sc o i v) = Ok bs ->
+  exists body rs,
+    bs = body ++ ounk o /\ records body = Some rs /\ In (fnum f) (numbers rs) /\
+    forall j f', j <> i -> nth_error (cfs sc o) j = Some f' -> fgroup f' = Some g -> ~ In (fnum f') (numbers rs).
+Proof. exact assign_on_wire. Qed.
+Print Assumptions C07_assign_on_wire.
+
+Theorem C07_assign_default_on_wire : forall sc o i f g bs,
+  wf_schema sc = true -> Inv sc o -> selected_values_ok sc o ->
+  nth_error (cfs sc o) i = Some f -> fgroup f = Some g ->
+  enc_obj sc (setattr sc o i (default_of sc f)) = Ok bs ->
+  which_one_of (setattr sc o i (default_of sc f)) g = Some i /\
+  exists body rs,
+    bs = body ++ ounk o /\ records body = Some rs /\ In (fnum f) (numbers rs) /\
+    forall j f', j <> i -> nth_error (cfs sc o) j = Some f' -> fgroup f' = Some g -> ~ In (fnum f') (numbers rs).
+Proof. exact assign_default_on_wire. Qed.
+Print Assumptions C07_assign_default_on_wire.
+
+Theorem C07_assign_in_json : forall cs incl sc o i v f g,
+  wf_schema sc = true -> Inv sc o -> selected_values_ok sc o -> keys_distinct cs sc (ocls o) ->
+  nth_error (cfs sc o) i = Some f -> fgroup f = Some g -> vok v = true ->
+  let d := to_dict cs incl sc (setattr sc o i v) in
+  In (key_of_field cs f) (jkeys d) /\
+  forall j f', j <> i -> nth_error (cfs sc o) j = Some f' -> fgroup f' = Some g -> ~ In (key_of_field cs f') (jkeys d).
+Proof. exact assign_in_json. Qed.
+Print Assumptions C07_assign_in_json.
+
+Theorem C07_assign_default_in_json : forall cs incl sc o i f g,
+  wf_schema sc = true -> Inv sc o -> selected_values_ok sc o -> keys_distinct cs sc (ocls o) ->
+  nth_error (cfs sc o) i = Some f -> fgroup f = Some g ->
+  let d := to_dict cs incl sc (setattr sc o i (default_of sc f)) in
+  In (key_of_field cs f) (jkeys d) /\
+  forall j f', j <> i -> nth_error (cfs sc o) j = Some f' -> fgroup f' = Some g -> ~ In (key_of_field cs f') (jkeys d).
+Proof. exact assign_default_in_json. Qed.
+Print Assumptions C07_assign_default_in_json.
+
+(* ---- non-vacuity of the gap-closing theorems ---- *)
+(* construct, assign a default-valued string, observe, parse three members of group 0 and one of group 1, copies, pickle,
+   from_dict naming one member of each group, pickle again, assign a = 0 (the default) *)
+Definition ex_ops_g : list op7 :=
+  [OConstruct [(0%nat, PInt 5); (3%nat, PInt 9)];
+   OBase (OSet [] 1 (PStr []));
+   OBase OBytes;
+   OBase (OParse [x08; x01; x1a; x00; x12; x01; x78; x28; x00]);
+   OBase OCopy; OBase ODeepcopy; OBase OPickle;
+   OFromDictInst [(2%nat, PMsg (new ex_sc 12)); (5%nat, PInt 0)];
+   OBase OPickle;
+   OBase (OSet [] 0 (PInt 0))].
+
+(* the hypotheses of C07_track_reachable (hence of C07_track_sound) hold of it, and the tracker's answer is the state's *)
+Example C07_ex_track :
+  c01_schema_ok ex_sc = true /\ hist_ok op_value_ok_p ex_sc (new ex_sc 11) ex_ops_g = true /\
+  forallb framed_op ex_ops_g = true /\ hist_ok trk_ok ex_sc (new ex_sc 11) ex_ops_g = true /\
+  track ex_sc 11 ex_ops_g = [Some 0%nat; Some 5%nat] /\
+  match run7 ex_sc (new ex_sc 11) ex_ops_g with Ok o => ocur o = [Some 0%nat; Some 5%nat] | Err _ => False end /\
+  (* the tracker along the way: after the parse b (index 1, the last record of group 0) and d (index 4) *)
+  track ex_sc 11 (firstn 4 ex_ops_g) = [Some 1%nat; Some 4%nat].
+Proof. vm_compute. repeat split. Qed.
+
+(* C07_pickle_keeps_selection: a state with two selections (one holding its default) meets the hypotheses *)
+Example C07_ex_pickle :
+  match run7 ex_sc (new ex_sc 11) (firstn 6 ex_ops_g) with
+  | Ok o => c01_value_ok ex_sc o = true /\ enc_small ex_sc o = true /\ ocur o = [Some 1%nat; Some 4%nat] /\
+            match pickle_rt ex_sc o with Ok o' => ocur o' = [Some 1%nat; Some 4%nat] | Err _ => False end
+  | Err _ => False
+  end.
+Proof. vm_compute. repeat split. Qed.
+
+(* C07_track_last_assignment: a = 0 (default), then copy, pickle, a read, t = 1, a nested assignment, a parse of a record of
+   group 1 only: nothing touches group 0, the tracker still names a *)
+Example C07_ex_last_assignment :
+  let ops2 := [OBase OCopy; OBase OPickle; OBase (OGet [] 0); OBase (OSet [] 3 (PInt 1)); OBase (OSet [2%nat] 0 (PInt 7));
+               OBase (OParse [x28; x01]); OFromDictInst [(4%nat, PBool true)]] in
+  forallb (fun p => negb (touches ex_sc 11 0 p)) ops2 = true /\
+  nth 0 (track ex_sc 11 ([OConstruct [(1%nat, PStr [x78])]] ++ OBase (OSet [] 0 (PInt 0)) :: ops2)) None = Some 0%nat /\
+  forallb (fun p => negb (touches ex_sc 11 1 p)) [OBase (OSet [] 0 (PInt 0)); OBase OPickle] = true.
+Proof. vm_compute. repeat split. Qed.
+
+(* C07_from_dict_inst_last: m.from_dict({"a": 1, "c": Leaf(), "t": 3}): c is the last entry of group 0 *)
+Example C07_ex_from_dict_inst_last :
+  touches ex_sc 11 0 (OFromDictInst [(3%nat, PInt 3)]) = false /\
+  which_one_of (C07Ops.from_dict_inst ex_sc (new ex_sc 11) ([(0%nat, PInt 1)] ++ (2%nat, PMsg (new ex_sc 12)) :: [(3%nat, PInt 3)])) 0
+    = Some 2%nat.
+Proof. vm_compute. repeat split. Qed.
+
+(* C07_assign_default_on_wire / _in_json on a state that selects b = "x" and holds unknown bytes: after a = 0 the record of a
+   (number 1) is there with the default, b's (number 2) is gone, the unknown record (number 15) is still at the end *)
+Example C07_ex_assign_default :
+  match parse ex_sc 11 [x12; x01; x78; x78; x01] with
+  | Ok o =>
+      which_one_of o 0 = Some 1%nat /\ ounk o = [x78; x01] /\
+      nth_error (cfs ex_sc o) 0 = Some (mkF [x61] 1 TInt32 None (Some 0%nat) None false (HPlain PyInt) 0) /\
+      enc_obj ex_sc (setattr ex_sc o 0 (PInt 0)) = Ok [x08; x00; x78; x01] /\
+      records [x08; x00] = Some [(1, 0)] /\
+      jkeys (to_dict CAMEL false ex_sc (setattr ex_sc o 0 (PInt 0))) = [[x61]]
+  | Err _ => False
+  end.
+Proof. vm_compute. repeat split. Qed.
+
+(* ... and that state meets selected_values_ok (it is reachable by an op_ok history: C07_selected_values_reachable) *)
+Example C07_ex_assign_default_hyp :
+  Forall (op_ok ex_sc 11) [OBase (OParse [x12; x01; x78; x78; x01])] /\
+  match run7 ex_sc (new ex_sc 11) [OBase (OParse [x12; x01; x78; x78; x01])] with
+  | Ok o => parse ex_sc 11 [x12; x01; x78; x78; x01] = Ok o
+  | Err _ => False
+  end.
+Proof. split; [repeat constructor | vm_compute; reflexivity]. Qed.
+
+(* C07_read_iff_selected / C07_at_most_one_readable: both directions on the constructor state that keeps two raw values *)
+Example C07_ex_read_iff :
+  let o := construct ex_sc 11 [(0%nat, PInt 5); (1%nat, PStr [x78])] in
+  which_one_of o 0 = Some 1%nat /\ read ex_sc o 1 = Ok (PStr [x78]) /\ read ex_sc o 0 = Err EAttribute /\
+  read ex_sc o 2 = Err EAttribute /\ nth 0 (oraw o) PNone = PInt 5.
+Proof. vm_compute. repeat split. Qed.
+
+(* ---- the clauses composed: after every history meeting C01's operation-level conditions, the encoding / to_dict / attribute
+        reads name, for every group, exactly the member the last-writer tracker names.  Every hypothesis except keys_distinct
+        (a schema condition, C19's subject) is a boolean evaluated on the history ([op_okb], Model/C07GapOk.v, is the boolean
+        form of [op_ok]) ---- *)
+From BP Require Import Model.C07GapOk Proofs.C07GapC.
+
+Theorem C07_ops_okb_ok : forall sc c ops, forallb (op_okb sc c) ops = true -> Forall (op_ok sc c) ops.
+Proof. exact ops_okb_ok. Qed.
+Print Assumptions C07_ops_okb_ok.
+
+Theorem C07_last_writer_on_wire : forall sc c ops o bs,
+  c01_schema_ok sc = true -> hist_ok op_value_ok_p sc (new sc c) ops = true ->
+  forallb framed_op ops = true -> forallb (op_okb sc c) ops = true ->
+  run7 sc (new sc c) ops = Ok o -> enc_obj sc o = Ok bs ->
+  exists body rs,
+    bs = body ++ ounk o /\ records body = Some rs /\
+    forall g j f', (g < cngroups (get_class sc c))%nat ->
+      nth_error (cfields (get_class sc c)) j = Some f' -> fgroup f' = Some g ->
+      (In (fnum f') (numbers rs) <-> nth g (track sc c ops) None = Some j).
+Proof. exact last_writer_on_wire. Qed.
+Print Assumptions C07_last_writer_on_wire.
+
+Theorem C07_last_writer_in_json : forall cs incl sc c ops o,
+  c01_schema_ok sc = true -> hist_ok op_value_ok_p sc (new sc c) ops = true ->
+  forallb framed_op ops = true -> forallb (op_okb sc c) ops = true -> keys_distinct cs sc c ->
+  run7 sc (new sc c) ops = Ok o ->
+  forall g j f', (g < cngroups (get_class sc c))%nat ->
+    nth_error (cfields (get_class sc c)) j = Some f' -> fgroup f' = Some g ->
+    (In (key_of_field cs f') (jkeys (to_dict cs incl sc o)) <-> nth g (track sc c ops) None = Some j).
+Proof. exact last_writer_in_json. Qed.
+Print Assumptions C07_last_writer_in_json.
+
+Theorem C07_last_writer_readable : forall sc c ops o,
+  c01_schema_ok sc = true -> hist_ok op_value_ok_p sc (new sc c) ops = true -> forallb framed_op ops = true ->
+  run7 sc (new sc c) ops = Ok o ->
+  forall g j f', nth_error (cfields (get_class sc c)) j = Some f' -> fgroup f' = Some g ->
+    ((exists v, read sc o j = Ok v) <-> nth g (track sc c ops) None = Some j) /\
+    (read sc o j = Err EAttribute <-> nth g (track sc c ops) None <> Some j).
+Proof. exact last_writer_readable. Qed.
+Print Assumptions C07_last_writer_readable.
+
+(* non-vacuity: the example history meets the boolean conditions; its bytes hold a (number 1, default 0) and e (number 6, 0) *)
+Example C07_ex_last_writer :
+  forallb (op_okb ex_sc 11) ex_ops_g = true /\
+  match run7 ex_sc (new ex_sc 11) ex_ops_g with
+  | Ok o => enc_obj ex_sc o = Ok [x08; x00; x20; x09; x30; x00] /\ ounk o = [] /\
+            jkeys (to_dict CAMEL false ex_sc o) = [[x61]; [x74]; [x65]]
+  | Err _ => False
+  end /\
+  records [x08; x00; x20; x09; x30; x00] = Some [(1, 0); (4, 0); (6, 0)] /\
+  (* and the boolean condition does reject m.a = None *)
+  op_okb ex_sc 11 (OBase (OSet [] 0 PNone)) = false.
+Proof. vm_compute. repeat split. Qed.
